@@ -97,8 +97,10 @@ pub const TOTAL_SHREDS: usize = 64;
 
 pub open spec fn row_at(sh: Map<SliceIndex, [Option<ValidatedShred>; TOTAL_SHREDS]>, k: SliceIndex, i: int) -> Option<ValidatedShred> { sh[k]@[i] }
 pub open spec fn wf_parts(sl: Map<SliceIndex, ReconstructedSlice>, sh: Map<SliceIndex, [Option<ValidatedShred>; TOTAL_SHREDS]>,
-                          cc: Map<SliceIndex, SliceCommitment>, last: Option<SliceIndex>) -> bool {
+                          cc: Map<SliceIndex, SliceCommitment>, last: Option<SliceIndex>, leaves: Option<nat>) -> bool {
     &&& sl.dom().finite() && sh.dom().finite()
+    // W6: the double-Merkle tree, once built, has one leaf per slice up to the last one
+    &&& (leaves matches Some(n) ==> last is Some && n == (last->0).0 + 1)
     // W1: nothing is kept beyond the slice marked last
     &&& (last matches Some(l) ==> l.0 < 1024
             && (forall|k: SliceIndex| #[trigger] sl.contains_key(k) ==> k.0 <= l.0)
@@ -116,7 +118,10 @@ impl BlockData {
     pub open spec fn slice(&self, i: int) -> ReconstructedSlice { self.slices@[SliceIndex(i as usize)] }
     pub open spec fn shred_at(&self, k: SliceIndex, i: int) -> Option<ValidatedShred> { row_at(self.shreds@, k, i) }
     // representation invariant of one block's data (a function of the four parts it constrains)
-    pub open spec fn wf(&self) -> bool { wf_parts(self.slices@, self.shreds@, self.commitment_cache@, self.last_slice) }
+    pub open spec fn tree_leaves(&self) -> Option<nat> {
+        match self.double_merkle_tree { Some(t) => Some(t.spec_leaves().len()), None => None }
+    }
+    pub open spec fn wf(&self) -> bool { wf_parts(self.slices@, self.shreds@, self.commitment_cache@, self.last_slice, self.tree_leaves()) }
     pub open spec fn last_consistent(l: SliceIndex, si: SliceIndex, is_last: bool) -> bool {
         (si.0 < l.0 && !is_last) || (si == l && is_last)
     }
@@ -188,9 +193,48 @@ pub proof fn lemma_pigeon(dom: Set<SliceIndex>, l: int)
     }
 }
 
+// struct BlockstoreImpl (src/consensus/blockstore.rs) with the per-slot data kept and everything else opaque
+#[verifier::external_body] pub struct BlockstoreOther { _p: () }      // shredder pool, event channel
+pub struct BlockstoreImpl {
+    pub block_data: BTreeMap<Slot, SlotBlockData>,
+    pub other: BlockstoreOther,
+}
+#[verifier::external_body] pub struct DoubleMerkleProof { _p: () }
+impl DoubleMerkleTree {
+    // MerkleTree::create_proof asserts `index < number of leaves`: a crash site, here a proof obligation
+    #[verifier::external_body]
+    pub fn create_proof(&self, index: usize) -> (r: DoubleMerkleProof)
+        requires
+            // [C10.create_proof_index_within_tree C14.create_proof_index_within_tree]
+            index < self.spec_leaves().len(),
+    { unimplemented!() }
+}
+impl SlotBlockData {
+    pub open spec fn all_wf(&self) -> bool {
+        self.disseminated.wf() && forall|h: BlockHash| #[trigger] self.repaired@.contains_key(h) ==> self.repaired@[h].wf()
+    }
+}
+impl BlockstoreImpl {
+    pub open spec fn store_wf(&self) -> bool {
+        forall|s: Slot| #[trigger] self.block_data@.contains_key(s) ==> self.block_data@[s].all_wf()
+    }
+    // the block data answering for `id`: the disseminated block if it is complete and has that hash, else the repaired one
+    pub open spec fn data_of(&self, id: BlockId) -> Option<BlockData> {
+        if !self.block_data@.contains_key(id.0) { None } else {
+            let sd = self.block_data@[id.0];
+            if sd.disseminated.completed is Some && (sd.disseminated.completed->0).0 == id.1 { Some(sd.disseminated) }
+            else if sd.repaired@.contains_key(id.1) { Some(sd.repaired@[id.1]) } else { None }
+        }
+    }
+    // "the store holds a shred of slice s of block id"
+    pub open spec fn has_slice(&self, id: BlockId, s: SliceIndex) -> bool {
+        self.data_of(id) is Some && (self.data_of(id)->0).shreds@.contains_key(s)
+    }
+}
+
 pub mod code {
 use super::*;
-broadcast use super::axiom_SliceIndex_obeys_cmp_laws;
+broadcast use super::axiom_SliceIndex_obeys_cmp_laws, super::axiom_Slot_obeys_cmp_laws, super::axiom_DoubleMerkleRoot_obeys_cmp_laws;
 
 impl SliceIndex {
 /*@ extract src/types/slice_index.rs :: impl SliceIndex/fn inner
@@ -329,6 +373,49 @@ pub fn verif_shreds_is_empty(m: &BTreeMap<SliceIndex, [Option<ValidatedShred>; T
     ensures r == (forall|k: SliceIndex| !m@.contains_key(k))
 { unimplemented!() }
 
+// R8: `row.iter().find_map(|s| s.as_ref()).map(|s| s.slice_root().clone())`: the slice root of the first stored shred of the row
+#[verifier::external_body]
+pub fn verif_first_slice_root(row: &[Option<ValidatedShred>; TOTAL_SHREDS]) -> (r: Option<SliceRoot>)
+    ensures r is Some ==> exists|i: int| 0 <= i < TOTAL_SHREDS && (#[trigger] row@[i]) is Some
+{ unimplemented!() }
+
+impl BlockstoreImpl {
+/*@ extract src/consensus/blockstore.rs :: impl BlockstoreImpl/fn slot_data
+ret r
+ensures
+        r == (if self.block_data@.contains_key(slot) { Some(&self.block_data@[slot]) } else { None }),
+@*/
+/*@ extract src/consensus/blockstore.rs :: impl BlockstoreImpl/fn get_block_data
+props C14 C10
+ret r
+ensures
+        r == (match self.data_of(*block_id) { Some(bd) => Some(&bd), None => None }),
+@*/
+
+/*@ extract src/consensus/blockstore.rs :: impl Blockstore for BlockstoreImpl/fn get_last_slice_index
+props C14 C10
+ret r
+ensures
+        r == (match self.data_of(*block_id) { Some(bd) => bd.last_slice, None => None }),
+@*/
+/*@ extract src/consensus/blockstore.rs :: impl Blockstore for BlockstoreImpl/fn get_slice_root
+props C14 C10
+ret r
+rewrite[R8] `block_data .shreds .get(&slice_index)? .iter() .find_map(|s| s.as_ref()) .map(|s| s.slice_root().clone())` => `verif_first_slice_root(block_data.shreds.get(&slice_index)?)`
+ensures
+        // [C14.slice_root_served_only_for_a_held_slice]
+        r is Some ==> self.has_slice(*block_id, slice_index),
+@*/
+/*@ extract src/consensus/blockstore.rs :: impl Blockstore for BlockstoreImpl/fn create_double_merkle_proof
+props C14 C10
+ret r
+requires
+        self.store_wf(),
+        // caller obligation (repair.rs try_build_response looks the slice root up first): a shred of that slice is held
+        self.has_slice(*block_id, slice_index),
+@*/
+}
+
 impl BlockData {
 /*@ extract src/consensus/blockstore/slot_block_data.rs :: impl BlockData/fn try_reconstruct_block
 props C13 C10
@@ -370,6 +457,7 @@ loop 0
             self.slot == old(self).slot,
             slot == self.slot,
             self.double_merkle_tree is Some,
+            self.last_slice == Some(last_slice) && (self.double_merkle_tree->0).spec_leaves().len() == last_slice.0 + 1,
             block_hash == (self.double_merkle_tree->0).spec_root(),
         decreases verif_entries@.len() - verif_k,
 before `let slot = self.slot;`
